@@ -142,9 +142,11 @@ def same_state_digest(ctx, a, b):
 
 
 # ---------------------------------------------------------------------------------------------
-OTHER_DOMAIN = """(define (domain other) (:requirements :typing)
+OTHER_DOMAIN = """(define (domain other) (:requirements :typing :fluents)
  (:types zz1 zz2 - object zz3 - zz1)
+ (:constants cz1 - zz1 cz2 - zz2)
  (:predicates (pz ?a - zz1))
+ (:functions (fz ?a - zz1))
  (:action az :parameters (?a - zz3) :precondition (and (pz ?a)) :effect (and (not (pz ?a)))))"""
 UNTYPED_DOMAIN = """(define (domain untyped) (:requirements :strips)
  (:predicates (pu ?a))
@@ -158,6 +160,11 @@ CALLS = ["ground", "applicable", "apply", "apply_allow", "apply_skip", "reapply_
          "print_plain", "print_simplified", "serialize", "export", "new_domain", "shallow_copy", "parse_other", "parse_untyped",
          "combine_domains", "typed_action_call", "applicable_other_state", "apply_other_state", "print_simplified_2",
          "print_other_domain_simplified"]
+
+
+def vocab_keys(d):
+    """every section of a Domain object: what a fresh or unrelated domain holds must not depend on the history"""
+    return " | ".join(f"{sec}: {sorted(getattr(d, sec).keys())}" for sec in ("types", "constants", "predicates", "functions", "actions"))
 
 
 class History:
@@ -221,16 +228,16 @@ class History:
             return ("tokens", sorted(sexpr.tokens(DomainExporter().extract_domain(w.domain))))
         if call == "new_domain":
             d = Domain()
-            return ("text", str(sorted(d.types.keys())))
+            return ("text", vocab_keys(d))
         if call == "shallow_copy":
             c = w.domain.shallow_copy()
-            return ("text", str(sorted(c.types.keys())) + str(sorted(c.actions.keys())))
+            return ("text", vocab_keys(c))
         if call == "parse_other":
             d = lib.parse_domain(OTHER_DOMAIN)
-            return ("text", str(sorted(d.types.keys())))
+            return ("text", vocab_keys(d))
         if call == "parse_untyped":
             d = lib.parse_domain(UNTYPED_DOMAIN)
-            return ("text", str(sorted(d.types.keys())))
+            return ("text", vocab_keys(d))
         if call == "combine_domains":
             from pddl_plus_parser.multi_agent import MultiAgentDomainsConverter
             tmp = Path(lib.tmpdir()) / f"ma_{os.getpid()}"
@@ -238,14 +245,15 @@ class History:
             (tmp / "domain-a1.pddl").write_text(OTHER_DOMAIN)
             (tmp / "domain-a2.pddl").write_text(OTHER_DOMAIN.replace("zz2", "zz9"))
             d = MultiAgentDomainsConverter(tmp).locate_domains()
-            return ("text", str(sorted(d.types.keys())))
+            return ("text", vocab_keys(d))
         raise ValueError(call)
 
 
 # calls whose result is a text that depends on the (concrete) domain only: their result in ANY history must be the text the
 # same call returns as the very first call of a fresh interpreter (computed once per run, one fresh process per call)
 PURE_TEXT_CALLS = ("str_action", "typed_action_call", "print_plain", "print_simplified", "print_simplified_2",
-                   "print_other_domain_simplified", "export")
+                   "print_other_domain_simplified", "export", "new_domain", "parse_other", "parse_untyped", "combine_domains",
+                   "shallow_copy")
 
 
 def _bag(x):
@@ -490,7 +498,8 @@ def tasks_for(tier, seed):
                 ("export", "combine_domains"), ("parse_untyped", "combine_domains"), ("second_operator_apply", "reapply_result"),
                 ("print_simplified", "print_simplified_2"), ("print_simplified_2", "print_simplified"),
                 ("print_simplified", "print_other_domain_simplified"), ("print_other_domain_simplified", "print_simplified_2"),
-                ("print_plain", "print_simplified_2")]
+                ("print_plain", "print_simplified_2"), ("parse_untyped", "parse_other"), ("combine_domains", "parse_untyped"),
+                ("combine_domains", "new_domain"), ("parse_other", "new_domain")]
         for c1, c2 in list(dict.fromkeys(must + chosen)):
             for args in (args_list if (c1, c2) in must else args_list[:1]):
                 tasks.append(dict(domain_text=text, action="act", args=args, objects=dict(G.OBJECTS), mode="apply",
